@@ -117,13 +117,48 @@ Proof.
 Qed.
 Print Assumptions C13_iter_empty_language.
 
+(* random_word is uniform.  FULL statement: for every accepted word w of length k, among the draw
+   vectors of the box B(w) = product of the ranges [0, total_i) the code draws from along w's run,
+   the vectors that make random_word return w form a duplicate-free list vs with
+   |vs| * (number of accepted words of length k) = |B(w)|, i.e. w has probability 1/count. *)
+Definition C13_random_word_uniform_statement : Prop := forall m k w, valid_dfa m = true ->
+  length w = k -> dfa_acc m w = true ->
+  exists vs, NoDup vs /\
+    (forall ds, In ds vs <-> Forall2 N.lt ds (path_bounds m k (d_init m) w) /\ random_word m k ds = Ok w) /\
+    (N.of_nat (length vs) * cnt m k (d_init m) = Nprod (path_bounds m k (d_init m) w))%N /\
+    Nprod (path_bounds m k (d_init m) w) <> 0%N.
+(* PROVED (the two ingredients; the counting of whole vectors, a product over the steps, is not
+   formalised):
+   per step - with the draw c ranging over [0, cnt (r+1) q), the row entry (a, t) is selected
+     exactly for the c of an interval of cnt r t values inside that range (entries in the row's
+     stored order), so symbol a is chosen for cnt r (delta q a) of the cnt (r+1) q draws;
+   telescoping - along the run of an accepted w of length k the product of those interval sizes
+     (path_num), times cnt k q0, equals the product of the range sizes (path_den = |B(w)|, non-zero):
+     every accepted word has the same weight 1 / cnt k q0. *)
+Theorem C13_random_word_uniform_partial : forall m, valid_dfa m = true ->
+  (forall r q a t, In (a, t) (row_of m q) ->
+     exists off, (off + cnt m r t <= cnt m (S r) q)%N /\
+       forall c, pick m r (row_of m q) c = Some (a, t) <-> (off <= c < off + cnt m r t)%N) /\
+  (forall k w, length w = k -> dfa_acc m w = true ->
+     (path_num m k (d_init m) w * cnt m k (d_init m) = path_den m k (d_init m) w)%N /\
+     path_den m k (d_init m) w = Nprod (path_bounds m k (d_init m) w) /\
+     path_den m k (d_init m) w <> 0%N).
+Proof.
+  intros m Hv. split.
+  - intros r q a t Hin. exact (pick_interval m r (row_of m q) (row_keys_NoDup m Hv q) a t Hin).
+  - intros k w Hl Ha. destruct (path_telescope m Hv k (d_init m) w Hl Ha) as [H1 H2].
+    split; [exact H1|]. split; [exact (path_den_bounds m k (d_init m) w Hl Ha)|exact H2].
+Qed.
+Print Assumptions C13_random_word_uniform_partial.
+
 (* non-vacuity: a partial DFA over {0,1} with rows stored out of order *)
 Example C13_example :
   let m := mkdfa [0;1;2] [0;1] [(0,[(1,0);(0,1)]);(1,[(0,2)]);(2,[])] 0 [1;2] true in
   valid_dfa m = true /\ cnt m 3 0 = 2%N /\ wl m 3 0 = [[1;0;0];[1;1;0]] /\
   min_len m = Ok 1 /\ max_len m = Ok None /\ cardinality m = Err Infinite /\
   iter_upto m 4 = Ok [[0];[0;0];[1;0];[1;0;0]] /\
-  random_word m 3 [1%N;0%N;0%N] = Ok [1;1;0] /\ random_word m 0 [] = Err ValueErr.
+  random_word m 3 [1%N;0%N;0%N] = Ok [1;1;0] /\ random_word m 0 [] = Err ValueErr /\
+  path_num m 3 0 [1;1;0] = 2%N /\ path_den m 3 0 [1;1;0] = 4%N /\ path_bounds m 3 0 [1;1;0] = [2%N;2%N;1%N].
 Proof. vm_compute. repeat split. Qed.
 
 Example C13_example_finite :
